@@ -616,8 +616,12 @@ def f6_cells():
         "arg_of_user_fn": ([], Call("use_it", [mk(a), b], "i32")),
         "arg_of_user_fn_unused": ([], Call("ignore_it", [mk(a), b], "i32")),
         "return_from_user_fn": ([Let("t", T, Call("make", [a, b], T))], peek(t)),
+        # an earlier argument / field is already materialised when a later one leaves the function (seventh seeding round: the agent
+        # read these shapes as leaking on the unchanged tree)
+        "later_arg_returns_user_fn": ([], Call("use_it2", [mk(a), Block([ExprStmt(If(Bin(">", a, b, "bool"), Block([ExprStmt(Ret(zero))], None, "unit"), None, "unit"))], b, "i32")], "i32")),
     }
     helpers = {
+        "later_arg_returns_user_fn": [FnDef("use_it2", [("t", T), ("n", "i32")], "i32", Block([], Bin("+", peek(t), Var("n", "i32"), "i32"), "i32"))],
         "arg_of_user_fn": [FnDef("use_it", [("t", T), ("n", "i32")], "i32", Block([], If(Bin(">", Var("n", "i32"), zero, "bool"), Block([], peek(t), "i32"), Block([], Var("n", "i32"), "i32"), "i32"), "i32"))],
         "arg_of_user_fn_unused": [FnDef("ignore_it", [("t", T), ("n", "i32")], "i32", Block([], Var("n", "i32"), "i32"))],
         "return_from_user_fn": [FnDef("make", [("x", "i32"), ("y", "i32")], T, Block([Let("t", T, mk(Var("x", "i32"))), ExprStmt(If(Bin(">", Var("y", "i32"), zero, "bool"), Block([ExprStmt(Ret(mk(Var("y", "i32"))))], None, "unit"), None, "unit"))], t, T))],
@@ -627,6 +631,17 @@ def f6_cells():
     # tracked inside record / option / enum, match bindings and guards
     rty = ("rec", "Holder")
     h, h2 = Var("h", rty), Var("h2", rty)
+    # `?` whose operand is a field of a temporary record that owns a host value: on the None path the temporary must still be
+    # released (seventh seeding round: the frames to drop were snapshotted before the operand was lowered)
+    wty = ("rec", "Wrapped")
+    oi = ("opt", "i32")
+    wrap = FnDef("wrap", [("t", T), ("n", "i32")], wty, Block([], RecLit(wty, [("t", Var("t", T)), ("o", If(Bin(">", Var("n", "i32"), zero, "bool"), Block([], Ctor(oi, "Some", [Var("n", "i32")]), oi), Block([], Ctor(oi, "None", []), oi), oi))]), wty))
+    inner = FnDef("inner", [("x", "i32"), ("y", "i32")], oi, Block([Let("v", "i32", Try(Field(Call("wrap", [mk(Var("x", "i32")), Var("y", "i32")], wty), "o", oi), "i32"))], Ctor(oi, "Some", [Bin("+", Var("v", "i32"), one, "i32")]), oi))
+    out.append(P("f6_try_on_field_of_temporary_record", "F6", Program([wrap, inner, fn_main([("a", "i32"), ("b", "i32")], "i32", [],
+                 Match(Call("inner", [a, b], oi), [("Some", ["v"], None, Var("v", "i32")), ("None", [], None, Lit("i32", -1))], "i32"))], records={"Wrapped": [("t", T), ("o", oi)]}), {"ledger", "value", "trace"}))
+    out.append(P("f6_record_later_field_returns", "F6", Program([fn_main([("a", "i32"), ("b", "i32")], "i32", [
+        Let("h", rty, RecLit(rty, [("t", mk(b)), ("n", Block([ExprStmt(If(Bin(">", a, b, "bool"), Block([ExprStmt(Ret(zero))], None, "unit"), None, "unit"))], a, "i32"))]))],
+        Bin("+", Field(h, "n", "i32"), peek(Field(h, "t", T)), "i32"))], records={"Holder": [("n", "i32"), ("t", T)]}), {"ledger", "value", "trace"}))
     out.append(P("f6_record_field", "F6", Program([fn_main([("a", "i32"), ("b", "i32")], "i32", [
         Let("h", rty, RecLit(rty, [("n", a), ("t", mk(b))])), Let("h2", rty, h),
         ExprStmt(If(Bin(">", a, b, "bool"), Block([ExprStmt(eat(Field(h2, "t", T)))], None, "unit"), None, "unit"))],
